@@ -23,6 +23,9 @@ class P(vlib.Prop):
                      "^TestVerifC11Shared$", "sharedcomponent"),
         vlib.Harness("sharedconc", "internal/sharedcomponent", ".", {"zz_verif_c11_test.go": "C11/shared_test.go"},
                      "^TestVerifC11SharedConc$", "sharedcomponent"),
+        vlib.Harness("repair", "internal/sharedcomponent", ".",
+                     {"zz_verif_c11_test.go": "C11/shared_test.go", "zz_verif_c11repair_test.go": "C11/repair_test.go"},
+                     "^TestVerifC11Repair$", "sharedcomponent"),
         vlib.Harness("graph", "service", "./internal/graph/", {"zz_verif_c11_test.go": "C11/graph_test.go"},
                      "^TestVerifC11Graph$", "graph"),
         vlib.Harness("extensions", "service", "./extensions/", {"zz_verif_c11_test.go": "C11/ext_test.go"},
@@ -41,6 +44,10 @@ class P(vlib.Prop):
             "independently in Go). "
             "shared: Start/report/late-Start/Shutdown scripts on the real sharedcomponent.Component; sharedconc: a report "
             "issued from another goroutine while a late instance is inside its replay (forced interleaving). "
+            "repair: the PROPOSED repair of finding S3 (a verbatim copy of the patched hostWrapper inside the harness, not /repo) "
+            "against its model sc2_run, late attaches after any number of reports in every status. "
+            "extensions additionally: every ComponentStatusChanged call of 0-4 watcher extensions per run against "
+            "watcher_deliveries (kind 5). "
             "graph / extensions: the REAL Graph.StartAll/ShutdownAll and Extensions.Start/Shutdown over 1-4 scripted "
             "components that report during Start, at run time and during Shutdown and may fail (lifecycle scripts, "
             "the automatic-OK clause, the attribution of a report to the reporting instance and the delivery of every accepted event to "
@@ -50,6 +57,7 @@ class P(vlib.Prop):
     trusted_base = [
         "Coq 8.16.1 kernel + vm_compute (coqc); no axioms (Print Assumptions: closed under the global context)",
         "translator T1 (tools/go2coq): reads the newFSM map literal and the Status constants from the current source",
+        "ring length dump: TestVerifC11RingLen run on the current code by P.translate -> Generated/C11Ring.v",
         "hand-written diagram C11/Diagram.v transcribed from docs/component-status.md (the specification)",
         "Go harnesses harness/C11/*.go + go test -overlay; Go toolchain",
         "harness conc paces its forced schedule by reading the state word of reporter.mu (sync.Mutex layout, Go 1.23) — pacing only, "
@@ -67,3 +75,20 @@ class P(vlib.Prop):
 
     def translate(self, ctx):
         vlib.go2coq(ctx, "service", os.path.join(vlib.VERIF, "props", "C11", "t1_spec.json"), "StatusTable")
+        # ring.New(5) sits in a closure of a generic method (outside T1's subset): the length of the ring is read
+        # from a component started by the CURRENT code (overlay honoured) and written to Generated/C11Ring.v;
+        # obligation ring_cap_is_code (C11/ProofsTie.v) ties Model.ring_cap to it.
+        h = vlib.Harness("ringlen", "internal/sharedcomponent", ".",
+                         {"zz_verif_c11_test.go": "C11/shared_test.go", "zz_verif_c11repair_test.go": "C11/repair_test.go"},
+                         "^TestVerifC11RingLen$", "sharedcomponent")
+        cases, oracle, stats, err = vlib.run_harness(ctx, h)
+        ctx.harness_runs.pop()          # a table dump, not a correspondence run
+        if err or "ring_len" not in stats:
+            raise vlib.Broken("ring length of sharedcomponent.hostWrapper cannot be read from the current code",
+                              err.detail if err else "no ring_len in the dump")
+        src = ("(* GENERATED by props/C11/check.py translate from a run of the CURRENT /repo code — do not edit.\n"
+               "   internal/sharedcomponent: hostWrapper.previousEvents.Len() of a started Component (ring.New(n)) *)\n"
+               "Definition ring_len : nat := %d.\n" % stats["ring_len"])
+        outv = os.path.join(vlib.COQ, "Generated", "C11Ring.v")
+        if not os.path.exists(outv) or open(outv).read() != src:
+            open(outv, "w").write(src)
